@@ -16,9 +16,14 @@ theorem translate_returns {n : Nat} (G : Graph n) (hG : G.ok) (fixed : Bool) (k 
   ⟨(tr G hG fixed k s).2.2.1, (tr G hG fixed k s).2.1⟩
 
 /-- with the second look, the assertion of `add_literal` never fails — cycles through box / diamond pairs included -/
-theorem fixed_never_asserts {n : Nat} (G : Graph n) (hG : G.ok) (hr : G.rechecks) (k : Fin n) (s : St n) (h : s.err = false) :
+theorem fixed_never_asserts {n : Nat} (G : Graph n) (hG : G.ok) (hr : G.wok) (k : Fin n) (s : St n) (h : s.err = false) :
     (tr G hG true k s).1.err = false :=
-  (tr G hG true k s).2.2.2 hr rfl h
+  (tr G hG true k s).2.2.2.2 hr rfl h
+
+/-- translating a pair gives literals only to pairs at or below it -/
+theorem literals_stay_below {n : Nat} (G : Graph n) (hG : G.ok) (hr : G.wok) (fixed : Bool) (k : Fin n) (s : St n) (i : Fin n)
+    (h : (tr G hG fixed k s).1.set i = true) : s.set i = true ∨ G.wrank i ≤ G.wrank k :=
+  (tr G hG fixed k s).2.2.2.1 hr i h
 
 /-- the smallest cycle: a Boolean pair (0) whose first operand is a box / diamond pair (1) that unfolds to the Boolean pair
     again; pair 2 is an atom.  (`<(a?)*> …`-like unfoldings outside the normal form have this shape.) -/
@@ -33,7 +38,7 @@ theorem cyc_ok : cyc.ok := by
   | ⟨1, _⟩ => simp [cyc]
   | ⟨2, _⟩ => simp [cyc]
 
-theorem cyc_rechecks : cyc.rechecks := by
+theorem cyc_wok : cyc.wok := by
   intro k
   match k with
   | ⟨0, _⟩ => simp [cyc]
@@ -51,7 +56,7 @@ theorem tr_early {n : Nat} (G : Graph n) (hG : G.ok) (fixed : Bool) (k c : Fin n
   split
   all_goals (rename_i h; rw [hk] at h; first | cases h | skip)
   generalize tr G hG fixed c (s.put k) = x
-  obtain ⟨s1, h1, h1', h1''⟩ := x
+  obtain ⟨s1, h1, h1', h1'', h1'''⟩ := x
   rfl
 
 theorem tr_op_unfixed {n : Nat} (G : Graph n) (hG : G.ok) (k a b : Fin n) (r : Bool) (s : St n)
@@ -62,10 +67,10 @@ theorem tr_op_unfixed {n : Nat} (G : Graph n) (hG : G.ok) (k a b : Fin n) (r : B
   split
   all_goals (rename_i h; rw [hk] at h; first | cases h | skip)
   generalize tr G hG false a s = x
-  obtain ⟨s1, h1, h1', h1''⟩ := x
+  obtain ⟨s1, h1, h1', h1'', h1'''⟩ := x
   simp only
   generalize tr G hG false b s1 = y
-  obtain ⟨s2, h2, h2', h2''⟩ := y
+  obtain ⟨s2, h2, h2', h2'', h2'''⟩ := y
   simp
 
 /-- Without the second look the assertion fails on every cycle of this shape: a Boolean pair whose first operand is a box /
@@ -89,8 +94,31 @@ theorem translate_idempotent {n : Nat} (G : Graph n) (hG : G.ok) (fixed : Bool) 
   translate_memo G hG fixed k _ (tr G hG fixed k s).2.2.1
 
 /-- the smallest cycle meets the hypotheses of both theorems -/
-example : cyc.ok ∧ cyc.rechecks ∧ cyc.kind ⟨0, by omega⟩ = .op true ⟨1, by omega⟩ ⟨2, by omega⟩ ∧
+example : cyc.ok ∧ cyc.wok ∧ cyc.kind ⟨0, by omega⟩ = .op true ⟨1, by omega⟩ ⟨2, by omega⟩ ∧
     cyc.kind ⟨1, by omega⟩ = .early ⟨0, by omega⟩ :=
-  ⟨cyc_ok, cyc_rechecks, by simp [cyc], by simp [cyc]⟩
+  ⟨cyc_ok, cyc_wok, by simp [cyc], by simp [cyc]⟩
+
+/-- a cycle with an until pair hanging off it (`<(a?)*> (b >? c)`-like): Boolean pair 0 with operands 1 (box / diamond pair that
+    unfolds to 0) and 2 (an until pair over the atom 3); the hypotheses of `fixed_never_asserts` hold -/
+def cycT : Graph 4 where
+  kind := fun k => if k.val = 0 then .op true ⟨1, by omega⟩ ⟨2, by omega⟩ else if k.val = 1 then .early ⟨0, by omega⟩
+                   else if k.val = 2 then .op false ⟨3, by omega⟩ ⟨3, by omega⟩ else .leaf
+  rank := fun k => if k.val = 0 then 2 else if k.val = 2 then 1 else 0
+  wrank := fun k => if k.val = 3 then 0 else 1
+
+example : cycT.ok ∧ cycT.wok := by
+  constructor
+  · intro k
+    match k with
+    | ⟨0, _⟩ => simp +decide [cycT]
+    | ⟨1, _⟩ => simp +decide [cycT]
+    | ⟨2, _⟩ => simp +decide [cycT]
+    | ⟨3, _⟩ => simp +decide [cycT]
+  · intro k
+    match k with
+    | ⟨0, _⟩ => simp +decide [cycT]
+    | ⟨1, _⟩ => simp +decide [cycT]
+    | ⟨2, _⟩ => simp +decide [cycT]
+    | ⟨3, _⟩ => simp +decide [cycT]
 
 end TelProofs.TRP
